@@ -103,6 +103,10 @@ func (v *varValidator) validateVarType(typ *ast.Type, val reflect.Value) (reflec
 	}
 	defer resetPath()
 	if typ.Elem != nil {
+		if !val.IsValid() {
+			// null for a nullable list (callers reject null at non-null positions)
+			return val, nil
+		}
 		if val.Kind() != reflect.Slice {
 			// GraphQL spec says that non-null values should be coerced to an array when possible.
 			// Hence if the value is not a slice, we create a slice and add val to it.
